@@ -64,12 +64,14 @@ func (s *session) sync(timeout time.Duration) bool {
 	return true
 }
 
-func (s *session) close() {
+func (s *session) close() bool {
 	done := make(chan struct{})
 	go func() { s.conn.Close(); close(done) }()
 	select {
 	case <-done:
-	case <-time.After(5 * time.Second):
+		return true
+	case <-time.After(10 * time.Second):
+		return false
 	}
 }
 
